@@ -278,9 +278,11 @@ class TreeRec:
             raise Hang()          # runaway expansion inside one public call: reported as a hang, before it eats the memory
         self.in_mk += 1
         exc = None
+        hang = False
         try:
             return self._orig_mk(parent, newlayer=newlayer)
         except Hang:
+            hang = True           # the watchdog fired inside make_children: the split is incomplete, the event says so
             raise
         except Exception as e:  # pragma: no cover
             exc = e
@@ -293,7 +295,9 @@ class TreeRec:
                 ev["L"] = self.tag
             if exc is not None:
                 ev["exc"] = type(exc).__name__
-            ch = parent.get_children() if exc is None else None
+            if hang:
+                ev["hang"] = 1
+            ch = parent.get_children() if exc is None and not hang else None
             self.scan(ev, first=tuple(ch) if ch else (), local_parent=parent if len(self.nodes) > self.FULL_SCAN_MAX and not self.mk_fields else None, fields=self.mk_fields)
             self.events.append(ev)
 
